@@ -1,7 +1,7 @@
 (* Proof scripts of the statements of Props/C20.v and Props/C21.v that need more than one step
    (Props files only contain statements closed by [exact]). *)
 From TxV Require Import Core.Base Model.PegSyntax Model.Peg Model.KwDefs Gen.SrcKw Model.Kw
-     Proofs.PegCongr Proofs.KwProofs Proofs.KwCheckProofs Proofs.KwWitness.
+     Proofs.PegCongr Proofs.PegInv Proofs.KwProofs Proofs.KwCheckProofs Proofs.KwInv Proofs.KwWitness.
 
 Lemma stmt_C20_compile : forall wordc digitc autokwd t pat,
   spec_icase (compile_lit wordc digitc autokwd true t) = true /\
@@ -101,3 +101,31 @@ Lemma stmt_C21_kw_nonvacuous :
   kw_match ascii_word ascii_lower false [105;102]%N [105;102;40]%N 0 = Some 2.         (* "if("  *)
 Proof. vm_compute. repeat split. Qed.
 
+
+(* non-vacuity of the parse-level boundary theorem: `('in' x=ID | y=ID) ';'` with autokwd on "in x;" *)
+Definition kwt_in (nid : nat) : option (list N * bool) :=
+  if Nat.eqb nid 4 then Some ([105;110]%N, false) else None.
+
+Lemma stmt_C21_boundary_parse_nonvacuous :
+  kw_oracle_spec ascii_word ascii_digit ascii_lower kwt_in g_in_kw in_in1 (orc_of tbl_in1_kw) /\
+  exists r, run g_in_kw cfg_default (orc_of tbl_in1_kw) false 50 in_in1 = Parsed r /\
+            In (4, 0, 2) (res_terminals r) /\ word_at ascii_word in_in1 (0 + 2) = false.
+Proof.
+  split.
+  - intros nid t ic H. unfold kwt_in in H. destruct (Nat.eqb_spec nid 4) as [->|]; [|discriminate].
+    injection H as <- <-. eexists. exists 0. split; [reflexivity|]. split; [reflexivity|]. split; [reflexivity|].
+    apply (expected_row_sound _ in_in1); [|vm_compute; reflexivity].
+    intros p Hp. unfold kw_match. rewrite lit_prefix_beyond; [reflexivity | discriminate | exact Hp].
+  - eexists. split; [vm_compute; reflexivity|]. split; [vm_compute; auto | reflexivity].
+Qed.
+
+Lemma stmt_C21_terminal_invariant : forall pt g input orc memo,
+  (forall nid nd psq s r s',
+      get_node g nid = Some nd -> term_parse input orc nid (n_kind nd) psq s = Ok r s' ->
+      res_okb pt r = true) ->
+  forall cfg fuel r, run g cfg orc memo fuel input = Parsed r ->
+  forall nid p len, In (nid, p, len) (res_terminals r) -> pt nid p len = true.
+Proof.
+  intros pt g input orc memo Ht cfg fuel r Hrun.
+  exact (res_okb_In pt r (run_ok pt g input orc memo Ht cfg fuel r Hrun)).
+Qed.
